@@ -34,7 +34,7 @@ func CycleCorpus(full bool) []*sdl.Program {
 	}
 	for L := 2; L <= 5; L++ {
 		for rot := 0; rot < L; rot++ {
-			for _, kind := range []string{sdl.KPtr, sdl.KIface, sdl.KPtrs, "name"} {
+			for _, kind := range []string{sdl.KPtr, sdl.KIface, sdl.KPtrs, "name", "lookup", "lookup+ptr"} {
 				p := &sdl.Program{ID: "PX", Family: FamWire, NIfaces: L, Note: fmt.Sprintf("ring L=%d rot=%d edge=%s", L, rot, kind)}
 				for i := 0; i < L; i++ {
 					j := (i + 1) % L
@@ -50,9 +50,24 @@ func CycleCorpus(full bool) []*sdl.Program {
 					case "name":
 						pt.Kind, pt.Target, pt.Sel, pt.Name = sdl.KPtr, fmt.Sprintf("PXT%d", j), sdl.SelName, aliasNext
 					}
-					t.Points = []*sdl.Point{pt}
+					inst := &sdl.Instance{ID: fmt.Sprintf("c%d", i), Type: t.Name, Alias: alias}
+					switch kind {
+					case "lookup":
+						// the ring is closed by by-name lookups from inside Init only
+						inst.InitLookups = []string{fmt.Sprintf("c%d", j)}
+					case "lookup+ptr":
+						// one lookup edge, the others are wired
+						if i == 0 {
+							inst.InitLookups = []string{fmt.Sprintf("c%d", j)}
+						} else {
+							pt.Kind, pt.Target = sdl.KPtr, fmt.Sprintf("PXT%d", j)
+							t.Points = []*sdl.Point{pt}
+						}
+					default:
+						t.Points = []*sdl.Point{pt}
+					}
 					p.Types = append(p.Types, t)
-					p.Instances = append(p.Instances, &sdl.Instance{ID: fmt.Sprintf("c%d", i), Type: t.Name, Alias: alias})
+					p.Instances = append(p.Instances, inst)
 				}
 				out = append(out, p)
 			}
